@@ -54,6 +54,7 @@ type Opts struct {
 	Poison    string // "", "ok", "noncritical", "nonnull", "nulltrailing", "nulltrailingtlv", "wrongtag", "longformnull", "empty" (the last five critical)
 	Extra     []pkix.Extension
 	Serial    int64
+	SerialBig *big.Int   // overrides Serial (serial numbers beyond int64)
 	Subject   *pkix.Name // override (cross-signing reuses another node's subject)
 	SKID      []byte
 	DNS       []string
@@ -140,6 +141,9 @@ func template(o Opts) *x509.Certificate {
 	}
 	if o.Serial == 0 {
 		t.SerialNumber = big.NewInt(nextSerial())
+	}
+	if o.SerialBig != nil {
+		t.SerialNumber = o.SerialBig
 	}
 	if o.Subject != nil {
 		t.Subject = *o.Subject
